@@ -176,7 +176,11 @@ def check_dense(res, facts):
 def check_sparse(res, facts):
     rule = res.rule("R-CANON.sparse", "a computed coefficient is pushed into a SparsePolynomial only on the non-zero arm of an is_zero test", 1)
     for fn in facts.fns(unit="ws", crate="ark_poly"):
-        if "::tests::" in fn.id or SPARSE not in " ".join(fn.d["locals"][:3]) or fn.kind == "Closure":
+        if "::tests::" in fn.id or fn.kind == "Closure":
+            continue
+        # a term-list helper of the sparse module (e.g. a merge of two sorted term lists returning Vec<(usize, F)>) is a host too
+        helper = "::univariate::sparse::" in fn.id and fn.local_ty(0).startswith("alloc::vec::Vec<(usize,")
+        if SPARSE not in " ".join(fn.d["locals"][:3]) and not helper:
             continue
         pushes = [(bb, t) for bb, t in fn.calls() if t["f"].get("name") == "push" and "alloc::vec::Vec" in t["f"].get("path", "")]
         if not pushes:
@@ -190,7 +194,7 @@ def check_sparse(res, facts):
             in_sparse = any(SPARSE + "<" in fn.local_ty(x) for x in tgt)
             # a scratch Vec<(usize, F)> in a function that produces a SparsePolynomial counts as well
             produces = SPARSE + "<" in fn.local_ty(0) or any(fn.local_ty(a).startswith("&mut") and SPARSE + "<" in fn.local_ty(a) for a in range(1, fn.d["argc"] + 1))
-            scratch = produces and any("alloc::vec::Vec<(usize," in fn.local_ty(x) for x in tgt)
+            scratch = (produces or helper) and any("alloc::vec::Vec<(usize," in fn.local_ty(x) for x in tgt)
             if not (in_sparse or scratch):
                 continue
             item = op_local(t["args"][1])
@@ -215,10 +219,25 @@ def check_sparse(res, facts):
                     al = op_local(c["args"][0])
                     if al is not None and (dep.slice([al]) & produced):
                         guarded = True
+            if not guarded and zero_filter_after(facts, fn, bb):
+                guarded = True      # pushed unconditionally, zero terms removed afterwards (retain / filter with an is_zero closure)
             if guarded:
                 rule.ok(key, "guarded by is_zero", fn.loc)
             else:
                 rule.bad(key, "a coefficient computed by %s is pushed without a zero test: cancelling terms leave an explicit zero term (non-canonical sparse polynomial)" % direct, fn.loc)
+
+
+def zero_filter_after(facts, fn, bb):
+    """a retain / filter call reachable from the push whose closure calls is_zero"""
+    reach = fn.reachable_from(bb)
+    for b2, t in fn.calls():
+        if b2 not in reach or t["f"].get("name") not in ("retain", "filter", "retain_mut"):
+            continue
+        for cid in closure_args(fn, t):
+            clo = facts.get(cid, fn.unit)
+            if clo is not None and any(c["f"].get("name") == "is_zero" for _, c in clo.calls()):
+                return True
+    return False
 
 
 def direct_arith(fn, local, depth=6):
